@@ -1744,6 +1744,12 @@ int ov_pcm_seek_page(OggVorbis_File *vf,ogg_int64_t pos){
               return ov_raw_seek(vf,result);
             }
           }
+          /* walked back to the first data page of the link without
+             finding where that packet begins (the link's data starts
+             with continued pages: a broken stream).  There is no
+             packet to inspect; the start of the link's data is the
+             best position left. */
+          return ov_raw_seek(vf,vf->dataoffsets[link]);
         }
         if(result<0){
           result = OV_EBADPACKET;
